@@ -145,13 +145,37 @@ fn cpu_ticks(pid: u32) -> Option<u64> {
 /// Run a child to completion, but kill it when it has stopped making progress: no CPU time consumed for STALL_S
 /// seconds means it sits in a deadlock (a corrupted heap taking the allocator lock with it, a lost wake-up, ...).
 /// -> (exit status description, success); a stalled child is reported as "hang".
+#[allow(dead_code)]
 fn run_watched(cmd: &mut Command, stall_s: u64) -> (String, bool) {
+    run_watched_ext(cmd, stall_s, None, 0, 0)
+}
+
+/// latest modification time below `dir` (the per-thread journal files are rewritten at the start of every case)
+fn dir_activity(dir: &std::path::Path) -> Option<std::time::SystemTime> {
+    let mut latest = None;
+    for e in std::fs::read_dir(dir).ok()?.flatten() {
+        if let Ok(m) = e.metadata().and_then(|m| m.modified()) {
+            if latest.map(|l| m > l).unwrap_or(true) {
+                latest = Some(m);
+            }
+        }
+    }
+    latest
+}
+
+/// Like `run_watched`, and additionally: a child that burns CPU without starting a new case for `quiet_s` seconds (no journal
+/// file under `journal` touched; 0 = not watched) or that runs longer than `wall_s` seconds (0 = unlimited) is killed and
+/// reported as "hang" too - a spinning case never stalls.
+fn run_watched_ext(cmd: &mut Command, stall_s: u64, journal: Option<&std::path::Path>, quiet_s: u64, wall_s: u64) -> (String, bool) {
     #[allow(non_snake_case)]
     let STALL_S: u64 = stall_s;
     let mut child = cmd.spawn().expect("spawn child");
     let pid = child.id();
     let mut last = cpu_ticks(pid).unwrap_or(0);
     let mut last_change = std::time::Instant::now();
+    let started = std::time::Instant::now();
+    let mut seen_activity = journal.and_then(dir_activity);
+    let mut last_activity = std::time::Instant::now();
     loop {
         match child.try_wait() {
             Ok(Some(st)) => return (describe_status(&st), st.success()),
@@ -160,10 +184,28 @@ fn run_watched(cmd: &mut Command, stall_s: u64) -> (String, bool) {
         }
         std::thread::sleep(std::time::Duration::from_millis(200));
         let now = cpu_ticks(pid).unwrap_or(last);
+        let mut kill = false;
         if now != last {
             last = now;
             last_change = std::time::Instant::now();
         } else if last_change.elapsed().as_secs() >= STALL_S {
+            kill = true;
+        }
+        if let Some(j) = journal {
+            let a = dir_activity(j);
+            if a != seen_activity {
+                seen_activity = a;
+                last_activity = std::time::Instant::now();
+            } else if quiet_s > 0 && last_activity.elapsed().as_secs() >= quiet_s {
+                eprintln!("[driver] child has not started a new case for {} s while consuming CPU: treated as a hang", quiet_s);
+                kill = true;
+            }
+        }
+        if wall_s > 0 && started.elapsed().as_secs() >= wall_s {
+            eprintln!("[driver] single case still running after {} s: treated as a hang", wall_s);
+            kill = true;
+        }
+        if kill {
             let _ = child.kill();
             let _ = child.wait();
             return ("hang".to_string(), false);
@@ -324,7 +366,11 @@ pub fn run_main(def: CheckDef) -> ! {
         let _ = std::fs::remove_file(format!("{}.partial", out_path));
         let mut cmd = Command::new(&exe);
         cmd.args(&args[1..]).arg("--child").arg("--journal-dir").arg(&jd).arg("--skip-file").arg(&skip_file).arg("--out").arg(&out_path);
-        let (st_desc, st_ok) = run_watched(&mut cmd, 25);
+        // a case that spins (CPU busy, no new case started) is a hang as well; thresholds by tier, overridable
+        let envn = |k: &str, d: u64| std::env::var(k).ok().and_then(|v| v.parse().ok()).unwrap_or(d);
+        let quiet_s = envn("VERIF_QUIET_S", if tier == Tier::Thorough { 10800 } else { 180 });
+        let single_wall_s = envn("VERIF_SINGLE_WALL_S", if tier == Tier::Thorough { 10800 } else { 30 });
+        let (st_desc, st_ok) = run_watched_ext(&mut cmd, 25, Some(&jd), quiet_s, 0);
         if st_ok && std::path::Path::new(&out_path).exists() {
             code = 0;
             break;
@@ -337,7 +383,7 @@ pub fn run_main(def: CheckDef) -> ! {
             std::fs::write(&f, line).unwrap();
             let mut sts = Vec::new();
             for _ in 0..2 {
-                let (d, _) = run_watched(Command::new(&exe).arg("--single").arg(&f).stdout(std::process::Stdio::null()).stderr(std::process::Stdio::null()), 8);
+                let (d, _) = run_watched_ext(Command::new(&exe).arg("--single").arg(&f).stdout(std::process::Stdio::null()).stderr(std::process::Stdio::null()), 8, None, 0, single_wall_s);
                 sts.push(d);
             }
             if sts[0] == sts[1] && sts[0] == "exit3" {
